@@ -16,6 +16,8 @@ fn type_pool() -> Vec<Ty> {
         u(4), Ty::tup(vec![u(2), u(2)]), Ty::list(u(8), 4), Ty::tup(vec![Ty::opt(Ty::arr(u(8), 2)), Ty::list(u(8), 2)]), u(256), Ty::tup(vec![u(128), u(128)]), Ty::unit(), Ty::arr(u(8), 0), u(32),
         // values containing several different sum types (hidden sides of different widths)
         Ty::tup(vec![Ty::either(u(8), u(256)), Ty::either(u(8), u(8))]), Ty::either(Ty::either(u(8), u(16)), u(8)), Ty::tup(vec![Ty::opt(u(16)), Ty::either(Ty::Bool, u(64)), Ty::opt(u(1))]),
+        // first arities at which balanced and right-nested product trees differ; an array of such tuples
+        Ty::tup(vec![u(8), u(8), u(8), u(8)]), Ty::tup(vec![Ty::Bool, u(8), u(8), u(32), u(16)]), Ty::arr(Ty::tup(vec![u(1), u(1), u(1), u(1)]), 3), Ty::arr(u(8), 5), Ty::list(u(8), 8),
     ]
 }
 
